@@ -622,8 +622,17 @@ class CliRules:
         body = f['body'].get('c', [])
         first_loop = next((i for i, s in enumerate(body) if s['k'] in ('WhileStmt', 'ForStmt', 'DoStmt')), len(body))
         prefix = body[:first_loop]
-        wrote_optind = any(n['k'] == 'BinaryOperator' and n['op'] == '=' and strip(n['lhs']).get('d') == 'G:optind' for s in prefix for n in walk(s))
-        rec.ob('R15.c', 'R15.c@%s::getopt-cursor-reset' % fkey(f), wrote_optind, '%s:%s' % (f['file'], f['line']), 'optind is %s before the option loop of every parse' % ('assigned' if wrote_optind else 'NOT assigned'))
+        # getopt keeps two cursors: optind and (glibc) its position inside a cluster of short options.  A parse that is abandoned inside
+        # a cluster ("-edn" rejected at d) leaves the second one behind; glibc clears it only on a full re-initialisation, which
+        # is requested by optind = 0 (optind = 1 restarts the argument index only).
+        assigns = [n for s in prefix for n in walk(s) if n['k'] == 'BinaryOperator' and n['op'] == '=' and strip(n['lhs']).get('d') == 'G:optind']
+        vals = [strip(n['rhs']).get('cv', n['rhs'].get('cv')) for n in assigns]
+        full = bool(assigns) and vals[-1] == 0
+        rec.ob('R15.c', 'R15.c@%s::getopt-cursor-reset' % fkey(f), full, '%s:%s' % (f['file'], f['line']),
+               'before the option loop of every parse optind is %s' % (
+                   'set to 0: the scanner, including its position inside a cluster of short options, is re-initialised' if full else
+                   ('set to %s: the argument index restarts, but a position inside a cluster of short options left by an abandoned parse survives' % vals[-1]
+                    if assigns else 'NOT assigned')))
         # every other mutable global the parser reads is (re)initialised before the loop
         used = set()
         for fn in [f] + [prog.functions[n['callee']['m']] for n in walk(f['body']) if n['k'] == 'CallExpr' and n['callee'].get('m') in prog.functions and prog.functions[n['callee']['m']]['file'] == f['file']]:
